@@ -146,6 +146,19 @@ def generate():
             cmd = getattr(inv, attr)
             out.append(f'Definition {cls.__name__}{attr} : Z * Z := ({z(cmd.first_address)}, {z(cmd.value)}).')
     out.append('')
+    # the meter filters of ET: `return s.offset < <limit>`
+    tree = ast.parse(open(os.path.join(REPO, 'goodwe', 'et.py')).read(), 'et.py')
+    etc = next(c for c in tree.body if isinstance(c, ast.ClassDef) and c.name == 'ET')
+    for fname_, cname in (('_not_extended_meter', 'ET_not_extended_meter_limit'), ('_not_extended_meter2', 'ET_not_extended_meter2_limit')):
+        fn = next((n for n in etc.body if isinstance(n, ast.FunctionDef) and n.name == fname_), None)
+        if fn is None: raise Unsupported(f'ET.{fname_} not found')
+        body = [st for st in fn.body if not (isinstance(st, ast.Expr) and isinstance(st.value, ast.Constant))]
+        ok = len(body) == 1 and isinstance(body[0], ast.Return) and isinstance(body[0].value, ast.Compare) and len(body[0].value.ops) == 1 \
+            and isinstance(body[0].value.ops[0], ast.Lt) and isinstance(body[0].value.left, ast.Attribute) and body[0].value.left.attr == 'offset' \
+            and isinstance(body[0].value.comparators[0], ast.Constant) and isinstance(body[0].value.comparators[0].value, int)
+        if not ok: fail(fn, 'meter filter is not `return s.offset < <literal>`')
+        out.append(f'Definition {cname} : Z := {z(body[0].value.comparators[0].value)}.')
+    out.append('')
     # (command, sensor list) pairs of read_runtime_data, in source order
     for cls, fname in ((goodwe.ET, 'et.py'), (goodwe.DT, 'dt.py')):
         tree = ast.parse(open(os.path.join(REPO, 'goodwe', fname)).read(), fname)
